@@ -532,9 +532,8 @@ fn gen(dir: &str) {
             let coin = match stream { 4 => r.range(4_280_000_000, 4_320_000_000), 2 => r.range(4_290_000_000, 4_300_000_000), _ =>
                 match r.below(5) { 0 => r.range(1_000_000, 5_000_000), 1 => r.range(4_290_000_000, 4_300_000_000), 2 => r.range(1, 70_000), 3 => r.range(10_000_000_000, 50_000_000_000), _ => r.range(2_000_000, 100_000_000) } };
             let ma = if i == 0 && stream != 6 { let mut m = gen_ma(&mut r, stream == 5); if m.is_empty() && r.chance(2, 3) { m.push(vec![(r.range(0, 32) as usize, r.range(1, 50))]); } m } else { vec![] };
-            // zero quantities / empty policies in inputs leave a residue in the change (not representable on chain)
-            let mut ma = ma; ma.retain(|p| !p.is_empty());
-            for p in ma.iter_mut() { for a in p.iter_mut() { if a.1 == 0 { a.1 = 1; } } }
+            // zero quantities / empty policies in inputs are kept: they leave a residue in the change that the
+            // builder has to treat as ADA-only change (C05's model of add_change follows every such path)
             ins.push((coin, ma));
         }
         let nout = r.below(3) as usize;
@@ -572,6 +571,15 @@ fn gen(dir: &str) {
     for k in 0..12u64 {
         emit(&mut out, format!("build 10000000 5000 16384 1 I 1 {} 1 1 0 1 O 0 C p:18446744073709551615:18446744073709551615:9223372036854775807 58 n 0 0", 4_900_165_000 + 500 * k));
         emit(&mut out, format!("build 10000000 5000 16384 1 I 1 {} 1 1 0 1 O 0 C p:18446744073709551615:18446744073709551615:18446744073709551615 59 n 0 0", 4_910_165_000 + 500 * k));
+    }
+    // zero-quantity / empty-policy residue only: has_assets is false, the ADA-only branch must be taken
+    for k in 0..(10 * scale) {
+        let ma = match k % 4 { 0 => "1 0", 1 => "1 1 3 0", 2 => "2 0 1 0 0", _ => "2 1 5 0 1 32 0" };
+        let nout = k % 2;
+        let coin = match r.below(3) { 0 => r.range(900_000, 1_400_000), 1 => r.range(4_294_000_000, 4_296_000_000), _ => r.range(2_000_000, 50_000_000) };
+        let outs = if nout == 1 { " O 1 e 29 1000000 0 n 0 0 - 0 0".to_string() } else { " O 0".to_string() };
+        let (ck, cl) = gen_addr(&mut r);
+        emit(&mut out, format!("build 4310 5000 16384 {} I 1 {} {}{} C {} {} n 0 0", r.below(2), coin, ma, outs, ck, cl));
     }
     // --- build(): max_tx_size guard, limit = full size - 1 / = / + 1 and random
     for _ in 0..(60 * scale) {
